@@ -97,6 +97,11 @@ def gen_model(rng, *, n_links=None, max_links=6, free_root=None, ortho=False,
         if limits and rng.random() < limit_prob:
           jt['range'] = [float(rng.uniform(-1.5, -0.2)),
                          float(rng.uniform(0.2, 1.5))]
+          if rng.random() < 0.25:
+            # a range that does not contain 0 (e.g. a slide limited to
+            # [0.2, 1.0]): the default pose is outside it
+            a, w = float(rng.uniform(0.1, 0.8)), float(rng.uniform(0.3, 1.0))
+            jt['range'] = [a, a + w] if rng.random() < 0.5 else [-a - w, -a]
         if passive:
           if rng.random() < 0.4:
             jt['damping'] = float(rng.uniform(0.05, 2.0))
